@@ -11,7 +11,7 @@ Planes == { MkPlane(LP(p), n) : p \in Box(1), n \in DirsOf(B) }
 Lines  == { MkLine(LP(p), u) : p \in Box(1), u \in DirsOf(B) }
 ProbeBox == { LP(p) : p \in Box(2) }
 Cases == { [t |-> "gf", q |-> q, pl |-> PlaneFromGeneral(q[1], q[2], q[3], q[4])] : q \in Quads }
-         \cup { [t |-> "plane", q |-> <<0, 0, 0, 0>>, pl |-> pl] : pl \in { x \in Planes : InShard(x, x, SEED, NSHARD) } }
+         \cup { [t |-> "plane", q |-> <<0, 0, 0, 0>>, pl |-> pl] : pl \in { x \in Planes : InShard(x, x, SEED, NSHARD) \/ Abs(x.p[1]) > 2 } }
          \cup { [t |-> "line", q |-> <<0, 0, 0, 0>>, pl |-> l] : l \in { x \in Lines : InShard(x, x, SEED, NSHARD) } }
 Init == c \in Cases
 Next == UNCHANGED c
